@@ -220,6 +220,35 @@ func (c *Ctx) BuildRepoBin(name string, verif, race bool) (string, error) {
 	return out, nil
 }
 
+// BuildRepoBinOverlay builds a command of the repository (tag verif) with extra source files laid over its package
+// directory (go build -overlay): files maps a file name inside src/<name>/ to the source file to compile there. The
+// repository itself is not touched.
+func (c *Ctx) BuildRepoBinOverlay(name string, files map[string]string, race bool) (string, error) {
+	repl := map[string]string{}
+	for fn, src := range files {
+		repl[filepath.Join(RepoRoot, "src", name, fn)] = src
+	}
+	ob, _ := json.Marshal(map[string]interface{}{"Replace": repl})
+	ov := filepath.Join(c.Scratch, name+"-overlay.json")
+	if err := os.WriteFile(ov, ob, 0644); err != nil {
+		return "", err
+	}
+	out := filepath.Join(c.Scratch, name+"-overlay")
+	args := []string{"build", "-tags", "verif", "-overlay", ov}
+	if race {
+		args = append(args, "-race")
+	}
+	args = append(args, "-o", out, ".")
+	cmd := exec.Command("go", args...)
+	cmd.Dir = filepath.Join(RepoRoot, "src", name)
+	cmd.Env = goEnv(true)
+	b, err := cmd.CombinedOutput()
+	if err != nil {
+		return "", fmt.Errorf("overlay build of %s failed: %v\n%s", name, err, b)
+	}
+	return out, nil
+}
+
 // Run executes a command with a deadline; returns stdout+stderr, exit code, timedOut.
 func Run(dir string, env []string, timeout time.Duration, stdout io.Writer, name string, args ...string) (string, int, bool) {
 	cmd := exec.Command(name, args...)
